@@ -28,6 +28,7 @@ type StubScript struct {
 	PlainCaps []string
 	TLSCaps   []string
 	Gap       Dur
+	TLSNoEhlo bool      // inside TLS the server knows HELO only: EHLO is answered 502
 	LMTP      []StubTxn // non-nil: a scripted LMTP server, one entry per MAIL it accepts
 }
 
@@ -165,6 +166,8 @@ func runStub(raw *SimConn, s *StubScript, h *StubHistory, tlsCfg *tls.Config, cl
 		}
 		up := strings.ToUpper(l)
 		switch {
+		case strings.HasPrefix(up, "EHLO") && inTLS && s.TLSNoEhlo:
+			write("502 5.5.1 command not implemented\r\n")
 		case strings.HasPrefix(up, "EHLO"), strings.HasPrefix(up, "LHLO"):
 			caps := s.PlainCaps
 			if inTLS {
